@@ -65,5 +65,15 @@ CHECKS = {
   "note": "Trusted: recount oracle in vlib/checks/c13.py (include exact unless two annotated features lie within delta of one read feature; exclude between the strict and the generous reading of the statement).",
   "technique": "offline recount oracle over output tables vs reported read alignments (interval-valued reference model)",
  },
+ "C03": {
+  "text": "Both output GTFs of CLI runs (with and without annotation, all eight model-construction strategies, three data types, noisy multi-chromosome worlds with hidden isoforms, reads reaching beyond genes, multi-mappers, plus a >75 kb locus that the split monitor confirms is processed in several regions) are judged record by record against the structural rules of the statement; reference ids against the input GTF; extended annotation = reference + exactly the novel models. Sampled worlds.",
+  "note": "Trusted: GTF parser; chromosome lengths from the .fai; only structural rules of the statement are judged.",
+  "technique": "offline structural checker over output annotations vs input annotation (+ hooked region-splitting log as coverage evidence)",
+ },
+ "C04": {
+  "text": "Every novel model of CLI runs (strategies x data types x with/without annotation; hidden isoforms of both kinds so that .nic and .nnic models must both appear, otherwise inconclusive) is judged against corrected_reads.bed (every intron present in some corrected read of the chromosome), transcript_model_reads (>=1 supporting read; no line naming an unknown transcript), strand definiteness, nic/nnic suffix vs annotated introns, intron-chain uniqueness vs reference and other novel models, novel_gene_* membership in annotation-free runs. Sampled worlds.",
+  "note": "Trusted: exact coordinate comparison; 'supporting read' = a line of transcript_model_reads.",
+  "technique": "offline containment/inequality checker over output files",
+ },
 }
 NOT_APPLICABLE = {}
